@@ -3,3 +3,8 @@ open MtailVerif.C01
 #print axioms compiled_code_computes_the_reference_semantics
 #print axioms error_keeps_effects_made_before
 #print axioms otherwise_in_else_deviates
+#print axioms int_operator_table
+#print axioms float_operator_table
+#print axioms bit_operator_table
+#print axioms not_operator
+#print axioms int_comparison_table
